@@ -460,7 +460,7 @@ Definition wf_mut (m : mut) : Prop :=
   | MStatus c l => Pst c l
   | MSetHeader n v | MAddHeader n v => Pn n /\ Pv v
   | MSetCookie _ v => Pv v
-  | MHook _ | MDelHeader _ | MClearHeaders => True
+  | MHook _ | MDelHeader _ | MClearHeaders | MEnv _ _ => True
   end.
 Definition wf_hres (h : hres) : Prop :=
   match h with HRet o => wf_out o | HRaiseHttp _ r => wf_resp r | HRaiseExc _ => True end.
@@ -534,7 +534,7 @@ Qed.
 
 Lemma st_ok_mut m st : wf_mut m -> st_ok st -> st_ok (apply_mut m st).
 Proof.
-  intros Hm [S1 [S2 S3]]. destruct m as [c l|n v|n v|n v|e|n|]; simpl in *; unfold st_ok; simpl.
+  intros Hm [S1 [S2 S3]]. destruct m as [c l|n v|n v|n v|e|n| |im v]; simpl in *; unfold st_ok; simpl.
   - auto.
   - destruct Hm. repeat split; auto using hs_ok_set.
   - destruct Hm. repeat split; auto using hs_ok_append.
@@ -543,6 +543,7 @@ Proof.
   - repeat split; auto. unfold hs_ok in *. apply Forall_forall. intros x Hx. apply filter_In in Hx.
     rewrite Forall_forall in S2. apply S2. tauto.
   - repeat split; auto. constructor.
+  - auto.
 Qed.
 
 Lemma st_ok_muts ms : forall st, Forall wf_mut ms -> st_ok st -> st_ok (apply_muts ms st).
